@@ -342,6 +342,75 @@ pub fn expect(cap: usize, len: usize, act: &Act) -> Exp {
                 post: Post::Consumed,
             };
         }
+        StepsOn(kind, rs, st) => {
+            let (a, b) = if kind == 2 || kind == 3 || kind == 5 {
+                match rs.resolve(len) {
+                    Ok(x) => x,
+                    Err(()) => return panics(),
+                }
+            } else {
+                (0, len)
+            };
+            let mut dq: VecDeque<Tag> = pre[a..b].iter().copied().collect();
+            trace.push(Obs::Len(dq.len()));
+            for i in 0..st.len as usize {
+                let (back, skip) = Steps::decode(st.step(i));
+                let y = match skip {
+                    Some(k) if k < dq.len() => {
+                        for _ in 0..k {
+                            if back {
+                                dq.pop_back();
+                            } else {
+                                dq.pop_front();
+                            }
+                        }
+                        if back {
+                            dq.pop_back()
+                        } else {
+                            dq.pop_front()
+                        }
+                    }
+                    _ => {
+                        dq.clear();
+                        None
+                    }
+                };
+                trace.push(Obs::Yield(y));
+                trace.push(Obs::Len(dq.len()));
+            }
+            match kind {
+                4 => {
+                    return Exp {
+                        panics: false,
+                        trace,
+                        post: Post::Consumed,
+                    }
+                }
+                5 => {
+                    v.drain(a..b);
+                }
+                _ => return unchanged(trace),
+            }
+        }
+        ExtendFromBuf(m, _) => {
+            let m = m.min(cap);
+            v.extend((0..m).map(t_a));
+            v = last_n(v, cap);
+            trace.push(Obs::Unit);
+        }
+        IntoIterCloneFrom(a, m, b) => {
+            let m = m.min(cap);
+            let b = b.min(m);
+            let _ = a;
+            let src: Vec<Tag> = (b..m).map(t_a).collect();
+            trace.push(Obs::Tags(src.iter().map(|t| t_c(*t)).collect()));
+            trace.push(Obs::Tags(src));
+            return Exp {
+                panics: false,
+                trace,
+                post: Post::Consumed,
+            };
+        }
         DrainDebug(rs, s) => {
             let (a, b) = match rs.resolve(len) {
                 Ok(x) => x,
